@@ -44,14 +44,18 @@ def run(ctx):
         "IEEE-754 operations are uninterpreted (FloatOps); widening f32->f64 preserves comparisons (FloatLaws)",
         "cranelift_frontend::Switch as written in RotoV/Model/EvalMem.lean (set_entry rejects a repeated key, emit reaches the entry's block or the default; documented behaviour, not verified)",
         "usize arithmetic of the evaluator's memory is modelled in Nat (no overflow of `+`; `-` panics/wraps below zero like Rust); what lies behind a Pointer::Global is uninterpreted; raw pointers handed to clone/drop/eq functions (Memory::get) are outside the model",
-        "modelled, not verified: Call/Return bookkeeping, the register file and host-call adapters of the evaluator are covered by the differential run only",
+        "modelled, not verified: the type checker's name resolution (resolveName: innermost declaring scope) and Cranelift's def_var/use_var (last definition); the per-instruction `vars.insert` sites and host-call adapters of the evaluator are covered by the differential run only",
     ]
     return ctx.finish(
         level="proof",
         rule="mem: operation histories on the real Memory (boundary table per allocation size 0..24: every width 1/2/4/8/16/3/12 at every "
              "offset up to 9 past the end, frame tables, random histories) judged by a shadow oracle and compared with the generated Lean "
              "model, class = (operation, width, allocation size, in-bounds/out-of-bounds/within-padding/misaligned/dangling, outcome); "
-             "flow: matches over enums of 3..9 variants (payloads, `_`, shuffled arms) for every variant x 6 branch-table orders, calls with "
+             "flow: FIRST 44 class representatives independent of the seed — match1: one explicit arm + `_` for every (3..5 variants, arm k, "
+             "payload or not) x every variant (single-entry branch tables); shadow: 20 programs in which a nested block / match arm / "
+             "pattern binding / loop body / callee declares a name that is still live outside (scalars, records), the outer variable read "
+             "again afterwards; then a random stream of block-structured programs (names from a pool of four + parameters: 60 deliberate, 30 "
+             "mostly unique) x 9 argument tuples; matches over enums of 3..9 variants (payloads, `_`, shuffled arms) for every variant x 6 branch-table orders, calls with "
              "permuted arguments, straight-line record programs with one access pushed past its stack slot, class = program text or "
              "(site kind, slot size, width, outcome); single-instruction programs: every (type, operator) x boundary^2 + random operands; "
              "compound programs: random expression trees x 20 argument tuples; a class is distinct by (type, operator, outcome) or by "
